@@ -55,11 +55,12 @@ struct Tier {
 
 fn tier_for(prop: &str, thorough: bool) -> Tier {
     match (prop, thorough) {
-        ("C16", false) => Tier { runs: 300_000, secs: 75 },
+        ("C16", false) => Tier { runs: 800_000, secs: 75 },
         ("C16", true) => Tier { runs: 30_000_000, secs: 1200 },
-        ("C15", false) => Tier { runs: 300_000, secs: 75 },
+        ("C15", false) => Tier { runs: 600_000, secs: 75 },
         ("C15", true) => Tier { runs: 30_000_000, secs: 1200 },
-        (_, false) => Tier { runs: 20_000, secs: 75 },
+        ("C12", false) => Tier { runs: 14_000, secs: 75 },
+        (_, false) => Tier { runs: 24_000, secs: 75 },
         (_, true) => Tier { runs: 2_000_000, secs: 1200 },
     }
 }
@@ -225,6 +226,10 @@ fn shrink(desc: &Value) -> Vec<Value> {
             Ok(d) => scen_list::shrink(&d).into_iter().map(|x| serde_json::to_value(x).unwrap()).collect(),
             Err(_) => vec![],
         },
+        Some("C12") => match serde_json::from_value::<crate::scen_conc::ConcDesc>(desc.clone()) {
+            Ok(d) => crate::scen_conc::shrink(&d).into_iter().map(|x| serde_json::to_value(x).unwrap()).collect(),
+            Err(_) => vec![],
+        },
         Some("C11") => match serde_json::from_value::<crate::scen_life::LifeDesc>(desc.clone()) {
             Ok(d) => crate::scen_life::shrink(&d).into_iter().map(|x| serde_json::to_value(x).unwrap()).collect(),
             Err(_) => vec![],
@@ -301,7 +306,8 @@ impl Drop for ExecPool {
 /// recorded schedule literally, then a few seeded strategies.
 fn schedule_variants(c: &Value, workload_changed: bool) -> Vec<Value> {
     let mut v = vec![c.clone()];
-    if workload_changed && c["threads"].as_array().map(|t| t.len()).unwrap_or(0) > 1 {
+    let nthreads = c["threads"].as_array().map(|t| t.len()).unwrap_or(0) + c["callers"].as_array().map(|t| t.len()).unwrap_or(0) + c["compilers"].as_array().map(|t| t.len()).unwrap_or(0);
+    if workload_changed && nthreads > 1 {
         let base = c["sched_seed"].as_u64().unwrap_or(1);
         for (k, st) in ["targeted", "uniform", "sticky80", "targeted", "pct2/12", "uniform"].iter().enumerate() {
             let mut x = c.clone();
@@ -317,16 +323,18 @@ fn schedule_variants(c: &Value, workload_changed: bool) -> Vec<Value> {
 /// Lexicographic size of a run description (smaller = simpler).
 fn desc_size(d: &Value) -> Vec<u64> {
     let js = |v: &Value| serde_json::to_string(v).map(|s| s.len() as u64).unwrap_or(0);
-    let threads = d["threads"].as_array().map(|t| t.len() as u64).unwrap_or(0);
+    let arrs = |k: &str| d[k].as_array().cloned().unwrap_or_default();
+    let threads = (arrs("threads").len() + arrs("callers").len() + arrs("compilers").len()) as u64;
     let ops: u64 = d["threads"]
         .as_array()
         .map(|t| t.iter().map(|x| x.as_array().map(|o| o.len() as u64).unwrap_or_else(|| x["ops"].as_array().map(|o| o.len() as u64).unwrap_or(0))).sum())
         .unwrap_or(0)
-        + d["setup"].as_array().map(|o| o.len() as u64).unwrap_or(0);
+        + d["setup"].as_array().map(|o| o.len() as u64).unwrap_or(0)
+        + arrs("callers").iter().chain(arrs("compilers").iter()).map(|x| x.as_array().map(|o| o.len() as u64).unwrap_or(0)).sum::<u64>();
     let faults = d["faults"].as_array().map(|t| t.len() as u64).unwrap_or(0);
     let sched: Vec<u64> = d["schedule"].as_array().map(|a| a.iter().map(|x| x.as_u64().unwrap_or(0)).collect()).unwrap_or_default();
     let switches = sched.windows(2).filter(|w| w[0] != w[1]).count() as u64;
-    vec![threads, ops, faults, js(&d["init"]) + js(&d["threads"]) + js(&d["setup"]), switches, sched.len() as u64]
+    vec![threads, ops, faults, js(&d["init"]) + js(&d["threads"]) + js(&d["setup"]) + js(&d["callers"]) + js(&d["compilers"]), switches, sched.len() as u64]
 }
 
 /// Greedy minimisation: walk the one-step simplifications in order (simplest
@@ -348,7 +356,7 @@ fn minimise(desc: &Value, class: &str, budget: Duration) -> (Value, u64) {
             let mut flat: Vec<Value> = Vec::new();
             let mut owner: Vec<usize> = Vec::new();
             for (k, c) in cands[i..hi].iter().enumerate() {
-                let changed = c["threads"] != cur["threads"] || c["init"] != cur["init"] || c["faults"] != cur["faults"] || c["setup"] != cur["setup"];
+                let changed = c["threads"] != cur["threads"] || c["init"] != cur["init"] || c["faults"] != cur["faults"] || c["setup"] != cur["setup"] || c["callers"] != cur["callers"] || c["compilers"] != cur["compilers"];
                 for v in schedule_variants(c, changed) {
                     flat.push(v);
                     owner.push(k);
@@ -432,6 +440,78 @@ fn components(prop: &str) -> Value {
         "shimmed": ["std::sync::Mutex in list.rs/string_buf.rs/value/mod.rs -> roto::verif::sync::Mutex (wrapper around the real std mutex, reports acquire/release)", "global allocator -> SimAlloc (bump arena, always-move realloc, 0xCD/0xDD poison, quarantine, PROT_NONE for freed JIT pages, canaries)", "getrandom(2) -> constant bytes (LD_PRELOAD), ASLR off"],
         "test_doubles": ["element types T24 / Zst (drop-tracked)", "registered host functions of the harness libraries"]
     })
+}
+
+pub const PROBES: [&str; 9] = [
+    "ok_handles_are_send_sync",
+    "p1_cell_closure",
+    "p2_rc_closure",
+    "p3_nonsync_constant",
+    "p4_nonsync_type",
+    "p5_list_of_nonsync",
+    "p6_refcell_closure",
+    "p7_receiver_closure",
+    "p8_rc_argument",
+];
+
+#[derive(Debug)]
+pub enum ProbeVerdict {
+    /// rustc refused it with a Send/Sync trait-bound error: this route is closed
+    Rejected,
+    /// rustc accepted a safe-Rust program that shares non-thread-safe state between threads
+    Accepted { native: String },
+    Harness(String),
+}
+
+/// C12 Part C: compile one safe-Rust probe program against /repo's working tree.
+pub fn run_probe(name: &str) -> ProbeVerdict {
+    let dir = verif_root().join("probes");
+    let out = Command::new("cargo")
+        .current_dir(&dir)
+        .env("CARGO_NET_OFFLINE", "true")
+        .args(["check", "--offline", "--quiet", "--message-format=short", "--bin", name])
+        .output();
+    let out = match out {
+        Ok(o) => o,
+        Err(e) => return ProbeVerdict::Harness(format!("cannot run cargo: {e}")),
+    };
+    let err = String::from_utf8_lossy(&out.stderr).to_string();
+    if name.starts_with("ok_") {
+        // positive probe: must compile
+        return if out.status.success() {
+            ProbeVerdict::Rejected
+        } else if err.contains("error[E0277]") && (err.contains("cannot be shared between threads safely") || err.contains("cannot be sent between threads safely")) {
+            ProbeVerdict::Accepted { native: format!("rustc refuses to send/share a handle or list between threads: {}", err.lines().filter(|l| l.contains("error[")).take(2).collect::<Vec<_>>().join(" | ").chars().take(400).collect::<String>()) }
+        } else {
+            ProbeVerdict::Harness(format!("positive probe {name} does not compile: {}", err.lines().filter(|l| l.contains("error")).take(4).collect::<Vec<_>>().join(" | ").chars().take(600).collect::<String>()))
+        };
+    }
+    if out.status.success() {
+        // demonstration only (not part of the verdict): run it natively
+        let run = Command::new("timeout")
+            .current_dir(&dir)
+            .env("CARGO_NET_OFFLINE", "true")
+            .args(["120", "cargo", "run", "--offline", "--quiet", "--bin", name])
+            .output();
+        let native = match run {
+            Ok(r) => format!(
+                "exit={:?} stdout={} stderr={}",
+                r.status.code(),
+                String::from_utf8_lossy(&r.stdout).trim().chars().take(300).collect::<String>(),
+                String::from_utf8_lossy(&r.stderr).trim().chars().take(400).collect::<String>()
+            ),
+            Err(e) => format!("could not run: {e}"),
+        };
+        return ProbeVerdict::Accepted { native };
+    }
+    let errors: Vec<&str> = err.lines().filter(|l| l.contains("error[")).collect();
+    let threadsafety = errors.iter().any(|l| l.contains("error[E0277]") && (l.contains("cannot be shared between threads safely") || l.contains("cannot be sent between threads safely")));
+    let only_expected = errors.iter().all(|l| l.contains("error[E0277]") || l.contains("error[E0599]"));
+    if threadsafety && only_expected {
+        ProbeVerdict::Rejected
+    } else {
+        ProbeVerdict::Harness(format!("probe {name} failed to compile for another reason: {}", err.lines().filter(|l| l.contains("error")).take(4).collect::<Vec<_>>().join(" | ").chars().take(600).collect::<String>()))
+    }
 }
 
 pub fn cmd_run(args: &[String]) -> i32 {
@@ -567,6 +647,48 @@ pub fn cmd_run(args: &[String]) -> i32 {
         new_violations.push(json!({"class": class, "detail": fdetail, "replay": path.to_string_lossy(), "count": unmatched.len()}));
     }
 
+    // ---- C12 Part C: safe-Rust probe programs compiled against /repo's working tree
+    let mut probe_report: Vec<Value> = Vec::new();
+    if prop == "C12" && !args.iter().any(|a| a == "--no-probes") {
+        let results: Vec<(String, ProbeVerdict)> = std::thread::scope(|sc| {
+            // the first probe builds roto; the rest reuse it
+            let first = (PROBES[0].to_string(), run_probe(PROBES[0]));
+            let hs: Vec<_> = PROBES[1..].iter().map(|n| sc.spawn(move || (n.to_string(), run_probe(n)))).collect();
+            let mut v = vec![first];
+            for h in hs {
+                if let Ok(x) = h.join() {
+                    v.push(x);
+                }
+            }
+            v
+        });
+        for (name, v) in results {
+            match v {
+                ProbeVerdict::Rejected if name.starts_with("ok_") => probe_report.push(json!({"probe": name, "rustc": "accepted, as required"})),
+                ProbeVerdict::Rejected => probe_report.push(json!({"probe": name, "rustc": "rejected (E0277 Send/Sync)"})),
+                ProbeVerdict::Accepted { native } => {
+                    probe_report.push(json!({"probe": name, "rustc": "ACCEPTED", "native_run": native}));
+                    let detail = if name.starts_with("ok_") {
+                        format!("probe program probes/src/bin/{name}.rs must compile but does not: {native}")
+                    } else {
+                        format!("safe-Rust probe program probes/src/bin/{name}.rs is accepted by rustc: it shares non-thread-safe state between threads through roto's API without synchronisation; native run: {native}")
+                    };
+                    if let Some(k) = matches_known(&known, &prop, "non-thread-safe-state-shared", &detail) {
+                        known_hits.entry(k.id.clone()).or_insert((k.clone(), 0)).1 += 1;
+                    } else {
+                        let path = replay_dir.join(format!("C12-probe-{name}.json"));
+                        let _ = std::fs::write(&path, serde_json::to_string_pretty(&json!({"property": "C12", "class": "non-thread-safe-state-shared", "probe": name, "detail": detail})).unwrap());
+                        new_violations.push(json!({"class": "non-thread-safe-state-shared", "detail": detail, "replay": path.to_string_lossy(), "count": 1}));
+                    }
+                }
+                ProbeVerdict::Harness(e) => {
+                    probe_report.push(json!({"probe": name, "rustc": "harness error", "detail": e}));
+                    harness_errors.push(e);
+                }
+            }
+        }
+    }
+
     // ---- evidence
     let wall = t0.elapsed().as_secs_f64();
     let mut fault_kinds = serde_json::Map::new();
@@ -582,6 +704,8 @@ pub fn cmd_run(args: &[String]) -> i32 {
     let samples: Vec<Value> = agg.samples.iter().take(3).cloned().collect();
     let rule = match prop.as_str() {
         "C16" => "each evaluation is one simulated run: a seeded workload (2-4 threads x 1-5 list operations on 1-3 shared lists, element type and Rust/script origin drawn per run) executed under one seeded schedule; non-trivial = at least one preemption of a still-runnable thread occurred; distinct = distinct hash of the full (thread, event kind, logical lock id / site) event sequence",
+        "C11" => "each evaluation is one simulated run from a cold process image: a seeded lifecycle history (setup on the main thread, then 1-3 simulated threads x 2-14 operations on shared slots of runtimes, packages and handles, then a seeded teardown) under one seeded schedule; non-trivial = at least one preemption of a still-runnable thread; distinct = distinct hash of the full event sequence (interning, lock, host-call, clone/drop points)",
+        "C12" => "each evaluation is one simulated run from a cold process image: either 2-4 caller threads x 1-6 calls/clones/drops on shared handles of a 12-function corpus whose literals are drawn per run, with 0-2 background compile-call-drop threads (3 of 4 runs), or 2-3 threads racing runtime construction, compilation and a get_function signature matrix on the empty type registry (1 of 4 runs); non-trivial = at least one preemption; distinct = distinct hash of the full event sequence. Plus 8 safe-Rust probe programs compiled against the working tree.",
         "C15" => "each evaluation is one sequential history of 1-60 list operations over 3 aliased handle slots, executed on one simulated thread against the heap model; non-trivial = at least 3 operations; distinct = distinct hash of (element type, operation sequence with arguments and origins)",
         _ => "each evaluation is one simulated run",
     };
@@ -605,6 +729,7 @@ pub fn cmd_run(args: &[String]) -> i32 {
             "components": components(&prop),
             "workers": workers,
             "stopped_by_deadline": agg.deadline_hit,
+            "safe_rust_probes": probe_report,
             "known_findings_seen": known_hits.iter().map(|(k, (_, n))| json!({"id": k, "reports": n})).collect::<Vec<_>>(),
             "new_violations": new_violations,
             "harness_errors": harness_errors,
@@ -670,6 +795,23 @@ pub fn cmd_replay(args: &[String]) -> i32 {
             return EXIT_HARNESS;
         }
     };
+    if let Some(probe) = v["probe"].as_str() {
+        return match run_probe(probe) {
+            ProbeVerdict::Accepted { native } => {
+                println!("replay: probe {probe} is accepted by rustc; native run: {native}");
+                println!("VIOLATION property=C12 replay={path}");
+                EXIT_VIOLATION
+            }
+            ProbeVerdict::Rejected => {
+                println!("replay: probe {probe} is rejected by rustc (route closed)");
+                EXIT_OK
+            }
+            ProbeVerdict::Harness(e) => {
+                println!("HARNESS-ERROR {e}");
+                EXIT_HARNESS
+            }
+        };
+    }
     let desc = if v.get("desc").is_some() { v["desc"].clone() } else { v.clone() };
     let want = v["class"].as_str().map(String::from);
     let out = match exec_descs(&[desc.clone()], 1, true) {
